@@ -398,8 +398,22 @@ Record dobs := mkdobs {
   o_len : list (Z * nat);              (* len(stores[c].items) *)
   o_tok : nat;                         (* len(packets_available.items) *)
   o_recv : Z;                          (* packets_received *)
-  o_total : Z                          (* total_packets *)
+  o_total : Z;                         (* total_packets *)
+  o_fwd : option (list (Z * (Z * Z)) * Z * list (Z * Z))
+                                       (* what the next hop reads inside its put() at the moment the packet is handed on:
+                                          (flow, (queue_count, queue_byte_size)) per flow, total_packets, class_count per class *)
 }.
+
+(* the counters a next hop sees while out.put(p) runs are those of the state after the transmission-end action: the
+   departing packet is already released from queue_count / queue_byte_size / total_packets (class_count follows when
+   run() resumes) *)
+Definition dfwd_ok (d : drr) (o : dobs) : bool :=
+  match o_fwd o with
+  | None => true
+  | Some (fl, tot, cc) =>
+      forallb (fun x => Z.eqb (dqcnt d (fst x)) (fst (snd x)) && Z.eqb (dqbytes d (fst x)) (snd (snd x))) fl
+      && Z.eqb (dtotal d) tot && forallb (fun x => Z.eqb (dccnt d (fst x)) (snd x)) cc
+  end.
 
 Definition dobs_ok (d : drr) (o : dobs) : bool :=
   forallb (fun x => Qeq_bool (ddef d (fst x)) (snd x)) (o_def o)
@@ -408,7 +422,7 @@ Definition dobs_ok (d : drr) (o : dobs) : bool :=
   && dopt_uid_eqb (dcur d) (o_cur o)
   && forallb (fun x => Nat.eqb (length (items (dst d (fst x)))) (snd x)) (o_len o)
   && Nat.eqb (length (items (dtok d))) (o_tok o)
-  && Z.eqb (dnrecv d) (o_recv o) && Z.eqb (dtotal d) (o_total o).
+  && Z.eqb (dnrecv d) (o_recv o) && Z.eqb (dtotal d) (o_total o) && dfwd_ok d o.
 
 Fixpoint drr_agree (cfg : dcfg) (d : drr) (l : list (daction * list pkt * dobs)) : bool :=
   match l with
